@@ -348,7 +348,28 @@ func Gen(c *kit.Ctx) (string, []byte, error) {
 			}
 			switch s := st.(type) {
 			case *ast.AssignStmt:
-				if len(s.Lhs) != 1 || len(s.Rhs) != 1 {
+				if len(s.Lhs) == len(s.Rhs) && len(s.Lhs) > 1 && (s.Tok == token.DEFINE || s.Tok == token.ASSIGN) {
+					// a, b := e1, e2: every right-hand side is evaluated before any assignment
+					var names, vals []string
+					var tys []typ
+					for i, l := range s.Lhs {
+						id, ok := l.(*ast.Ident)
+						if !ok {
+							return "", nil, fmt.Errorf("exprgen: %s: unsupported assignment target", key)
+						}
+						e, te, err := t.expr(s.Rhs[i])
+						if err != nil {
+							return "", nil, fmt.Errorf("exprgen: %s: %v", key, err)
+						}
+						names, vals, tys = append(names, sdfgen.CoqIdent(id.Name)), append(vals, e), append(tys, te)
+					}
+					for i, l := range s.Lhs {
+						t.env[l.(*ast.Ident).Name] = tys[i]
+					}
+					fmt.Fprintf(&body, "    let '(%s) := (%s) in\n", strings.Join(names, ", "), strings.Join(vals, ", "))
+					continue
+				}
+				if len(s.Lhs) != 1 || len(s.Rhs) != 1 || (s.Tok != token.DEFINE && s.Tok != token.ASSIGN) {
 					return "", nil, fmt.Errorf("exprgen: %s: unsupported assignment", key)
 				}
 				id, ok := s.Lhs[0].(*ast.Ident)
